@@ -560,6 +560,36 @@ def build(run):
         return proved("exec+recursive-oracle", vcs=n, sample=f"{n} (DAG, keyword arguments, compress) cases with operands shared under different keyword names / values")
     run.add("dagtraverser/keyword-arguments-in-the-memo-key", kwargs_memo, kind="values")
 
+    # ---- contract of the unique traversals with a caller-supplied `visited` set (series of traversals sharing one set): a traversal yields
+    # exactly the structurally distinct sub-expressions that are not in the set yet (and the root), each once, and leaves them in the set
+    def shared_visited():
+        x, y, z = Anchor("x"), Anchor("y"), Anchor("z")
+        s1 = N2(x, y)
+        e1 = N2(s1, N1(s1))
+        e2 = N3(z, s1, N1(N2(x, y)))            # shares s1 with e1, and contains a structurally equal copy of it
+        e3 = N1(e1)
+        n = 0
+        for tname, trav in (("unique_pre_traversal", TR.unique_pre_traversal), ("unique_post_traversal", TR.unique_post_traversal)):
+            for init in ("empty", "unrelated", "part"):
+                vis = set() if init == "empty" else ({Anchor("q")} if init == "unrelated" else {x, y, s1})      # downward closed
+                before = set(vis)
+                seen_total = []
+                for e in (e1, e2, e3, e1):
+                    got = list(trav(e, vis))
+                    n += 1
+                    want = ({k_ for k_ in subexprs(e)} - set(seen_total) - before) | {e}      # the root itself is always yielded
+                    if len(got) != len(set(got)) or set(got) != want:
+                        return violated(f"{tname} with a caller-supplied visited set ({init}): traversal #{len(seen_total) and 2 or 1} of a series yields "
+                                        f"{sorted(map(str, map(rec_apply, got)))[:6]}..., expected the {len(want)} sub-expressions not visited before",
+                                        replay={"traversal": tname, "initial": init, "got": [repr(rec_apply(g)) for g in got], "want": [repr(rec_apply(g)) for g in want]},
+                                        reproduced=True, backend="exec")
+                    if not set(got) <= vis:
+                        return violated(f"{tname} with a caller-supplied visited set ({init}) does not record the nodes it yielded in that set "
+                                        f"(set has {len(vis)} entries after yielding {len(got)})", replay={"traversal": tname, "initial": init}, reproduced=True, backend="exec")
+                    seen_total += got
+        return proved("exec+oracle", vcs=n, sample=f"{n} traversals in series sharing a visited set (initially empty / unrelated / partly filled)")
+    run.add("traversal/caller-supplied-visited-set", shared_visited, kind="values")
+
     # ---- bounded: all DAGs up to N nodes
     N = 6 if thorough else 5
 
